@@ -16,7 +16,7 @@ TRUSTED_BASE = [
 def run_C14(ctx):
     binary, seed, tier = ctx["binary"], ctx["seed"], ctx["tier"]
     divergences, failures = [], []
-    wanted = ["row_increment_at", "row_get_at", "row_half", "row_multi", "next_power_2"]
+    wanted = ["row_increment_at", "row_get_at", "row_half", "row_multi", "row_half_multi", "next_power_2"]
     mism, ncases, counts = kernels.compare_kernels(binary, wanted)
     for m in mism:
         divergences.append(dict(kind="kernel", component=m["component"], field=m["kernel"], detail=m))
@@ -39,7 +39,7 @@ def run_C14(ctx):
         failures.append(dict(signature="packed-counter", what=f["what"], detail=f))
     distinct = len({(c["counters"], tuple(c["ops"])) for c in cases if len(set(h for _, h in c["ops"])) > 1})
     return dict(divergences=divergences, failures=failures, evaluations=ncases + evals, distinct=distinct,
-                rule="kernel grids (all 256 bytes x 2 nibble positions exhaustively; rows of 1..8 bytes; next_power_2 on 1..1025 and 2^k+-1) "
+                rule="kernel grids (all 256 bytes x 2 nibble positions exhaustively; rows of 1..8 bytes; halving of rows of 1..40 bytes; next_power_2 on 1..1025 and 2^k+-1) "
                      "plus %d random access streams on the real TinyLFU (counters 1..64, non-powers of two included, random seeds, colliding hashes); "
                      "a stream is non-trivial and distinct if it touches more than one hash and its (counters, ops) differ" % n,
                 samples=[dict(counters=c["counters"], seeds=c["seeds"], ops=c["ops"][:12]) for c in cases[:2]],
@@ -230,7 +230,7 @@ def neighbourhood(divs, limit=6):
     return out
 
 
-def stress2_extra(pid):
+def stress2_extra(pid, mode=None):
     """Free-running runs with perturbation through the public API (a key type whose Hash occasionally busy-waits), judged
     by public invariants: the total is never negative; after deleting everything the total is 0 and keys added = deleted."""
     def extra(ctx, res, allsched, impl):
@@ -240,7 +240,7 @@ def stress2_extra(pid):
         runs = []
         for n, (threads, millis) in enumerate(plan):
             try:
-                p = subprocess.run([binary, "stress2", str(threads), str(millis), str(seed + n)], capture_output=True, text=True, timeout=millis / 1000.0 + 90)
+                p = subprocess.run([binary, "stress2", str(threads), str(millis), str(seed + n)] + ([mode] if mode else []), capture_output=True, text=True, timeout=millis / 1000.0 + 90)
                 out = [json.loads(l) for l in p.stdout.splitlines() if l.startswith("{")]
             except subprocess.TimeoutExpired:
                 res["failures"].append(dict(signature="stress-run-hung", what="the perturbed stress run with %d threads did not finish" % threads, threads=threads, millis=millis, seed=seed + n))
@@ -250,7 +250,9 @@ def stress2_extra(pid):
                     continue
                 runs.append({k: d[k] for k in ("threads", "millis", "operations", "min_total_seen", "max_total_seen", "final_total", "keys_balance", "panic_count", "hung")})
                 res["evaluations"] += d["operations"]
-                rep = dict(threads=threads, millis=millis, seed=seed + n, replay="./.build/target/debug/cached-verif-harness stress2 %d %d %d" % (threads, millis, seed + n), observed=d)
+                rep = dict(threads=threads, millis=millis, seed=seed + n, replay="./.build/target/debug/cached-verif-harness stress2 %d %d %d%s" % (threads, millis, seed + n, " " + mode if mode else ""), observed=d)
+                if pid == "C17" and d["panic_count"]:
+                    res["failures"].append(dict(rep, signature="caller-panicked-under-stress", no_shrink=True, what="%d valid calls panicked in a concurrent run, e.g. %s" % (d["panic_count"], d["panics"][:1])))
                 if d["hung"]:
                     res["failures"].append(dict(rep, signature="stress-callers-hung", what="callers or acknowledgements did not complete under the perturbed stress run"))
                     continue
@@ -425,7 +427,7 @@ PROPS.update({
                 assumptions=["partial: 'shutdown() returns' and 'every acknowledgement completes' are proved as enabledness/progress facts of the model; that the worker and consumer threads keep being scheduled is assumed"]),
     "C15": dict(module="C15", modules=["C15", "C15_pool"], run=mk("C15", ["reads", "evict", "general"], 250, 4000, extra=stress_quiescent_extra("C15")), components=["pool", "stats", "tinylfu", "api"],
                 assumptions=["partial: 'never blocks' is enabledness in the model; that crossbeam's select!{send, default} does not block is exercised with a gated (stalled) and an exited consumer, not proved"]),
-    "C17": dict(module="C17", run=mk("C17", ["boundary", "general", "ttl", "queue1"], 300, 5000, extra=release_extra("C17")), components=["panics", "roles", "api", "store", "weights", "admission", "ticker", "sketch", "tinylfu", "queue_worker", "time", "pool"],
+    "C17": dict(module="C17", run=mk("C17", ["boundary", "general", "ttl", "queue1"], 300, 5000, extra=release_extra("C17", stress2_extra("C17", "upserts"))), components=["panics", "roles", "api", "store", "weights", "admission", "ticker", "sketch", "tinylfu", "queue_worker", "time", "pool"],
                 assumptions=["partial: covers the panic sites the model represents (assert!/unwrap/expect/index operations/i64 overflow under the debug profile/SystemTime addition); allocation failure, thread spawn failure and panics inside dependencies are not modelled",
                              "documented preconditions: positive weights, a well-formed upsert, an upsert that turns into a put carries a value"]),
     "C16": dict(module="C16", run=mk("C16", ["general", "reads", "ttl", "evict"], 250, 4000, extra=stress_quiescent_extra("C16")), components=["stats", "stats.hit_ratio", "store", "weights", "queue_worker", "api", "admission"]),
